@@ -298,3 +298,75 @@ func TestC06_ArbitraryWeights(t *testing.T) {
 }
 
 var _ mapping.IndexMapping
+
+// TestC06_FarIndexes: round-trip, decode-into-non-empty and concatenation for sketches whose bins lie more than 2^31
+// indexes apart (accuracy <= 3e-7, values at both ends of the range), into every target that can hold them.
+func TestC06_FarIndexes(t *testing.T) {
+	rapid.Check(t, func(t *rapid.T) {
+		cl := newCase("C06")
+		src := farSource(t, cl, "C06", false, nil)
+		bud := model.NewBudget(gen.Quantum)
+		cl.label("far-indexes")
+		cl.labelIf(src.span > math.MaxInt32, "index-delta-beyond-int32")
+		cl.label("source:" + src.prodKind)
+		var b []byte
+		omit := rapid.Bool().Draw(t, "omit")
+		src.s.Encode(&b, omit)
+		var supplied mapping.IndexMapping
+		if omit || rapid.Bool().Draw(t, "supply") {
+			supplied = src.m
+		}
+		targets := []gen.StoreKind{{Name: "sparse"}, {Name: "collow", N: gen.BinLimit().Draw(t, "Nlow")}, {Name: "colhigh", N: gen.BinLimit().Draw(t, "Nhigh")}}
+		if src.unitOnly {
+			targets = append(targets, gen.StoreKind{Name: "paginated"})
+		}
+		for _, tk := range targets {
+			tc := skCfg{spec: src.spec, m: src.m, pos: tk, neg: tk}
+			dec, err := ddsketch.DecodeDDSketch(b, tc.provider(), supplied)
+			if err != nil {
+				t.Fatalf("C06 far: decoding the encoding of a valid sketch (producer %s, alpha %v, index span %d) into %s failed: %v", src.prodKind, src.alpha, src.span, tk, err)
+			}
+			if msg := checkAgainstModel(obs.SK{Plain: dec}, tc, src.k, bud); msg != "" {
+				t.Fatalf("C06 far -> %s: %s", tk, msg)
+			}
+			if !dec.IndexMapping.Equals(src.m) {
+				t.Fatalf("C06 far -> %s: decoded mapping differs", tk)
+			}
+			cl.label("target:" + tk.Name)
+		}
+		// decoding into a non-empty receiver == merging; a concatenation == the merge of its parts
+		other := farSource(t, cl, "C06", src.unitOnly, &src)
+		for _, tk := range targets {
+			if tk.Collapsing() {
+				continue // folding is not associative across a merge of two wide contents: covered by the dyadic C06 cases
+			}
+			tc := skCfg{spec: src.spec, m: src.m, pos: tk, neg: tk}
+			recv := tc.new()
+			var ob []byte
+			other.s.Encode(&ob, false)
+			if err := recv.DecodeAndMergeWith(ob); err != nil {
+				t.Fatalf("C06 far: filling the %s receiver: %v", tk, err)
+			}
+			if err := recv.DecodeAndMergeWith(b); err != nil {
+				t.Fatalf("C06 far: DecodeAndMergeWith into a non-empty %s receiver failed: %v", tk, err)
+			}
+			merged := newSkModel(src.m)
+			merged.merge(other.k, other.sc)
+			merged.merge(src.k, src.sc)
+			if msg := checkAgainstModel(recv, tc, merged, bud); msg != "" {
+				t.Fatalf("C06 far: decode into a non-empty %s receiver differs from the merge: %s", tk, msg)
+			}
+			cat := append(append([]byte(nil), ob...), b...)
+			dec, err := ddsketch.DecodeDDSketch(cat, tc.provider(), src.m)
+			if err != nil {
+				t.Fatalf("C06 far: decoding a concatenation into %s failed: %v", tk, err)
+			}
+			if msg := checkAgainstModel(obs.SK{Plain: dec}, tc, merged, bud); msg != "" {
+				t.Fatalf("C06 far: concatenation decoded into %s differs from the merge: %s", tk, msg)
+			}
+		}
+		cl.label("non-empty-receiver")
+		cl.label("concatenation")
+		cl.done(src.span > math.MaxInt32)
+	})
+}
